@@ -82,6 +82,7 @@ type vAction struct {
 	NumGPU       int    `json:"num_gpu,omitempty"`
 	NumBatch     int    `json:"num_batch,omitempty"`
 	KeepAliveUs  int    `json:"keep_alive_us,omitempty"` // <0: "forever" (1h); 0: unload when idle
+	Lanes        int    `json:"lanes,omitempty"`         // burst: number of goroutines that submit it concurrently (0/1: one)
 	NilKeep      bool   `json:"nil_keep_alive,omitempty"`
 	Hold         int    `json:"hold,omitempty"`      // yields (and 50us sleeps every 8th) while holding the runner
 	Gated        bool   `json:"gated,omitempty"`     // hold until the harness opens the gate (used by the queue-full scenario)
@@ -725,14 +726,36 @@ func (w *vWorld) runClient(script []vAction) {
 		case "burst":
 			// back-to-back submissions from one goroutine: each GetRunner call must return at once
 			var wg sync.WaitGroup
-			for k := 0; k < a.Burst; k++ {
-				b := a
-				b.Op = "req"
-				b.Req = a.Req + k
-				// GetRunner itself is called inline (so that a blocking enqueue is attributable);
-				// waiting for the reply happens in a helper goroutine
-				wg.Add(1)
-				w.submitAsync(b, &wg)
+			lanes := max(1, a.Lanes)
+			var lw sync.WaitGroup
+			for l := 0; l < lanes; l++ {
+				lw.Add(1)
+				submit := func(l int) {
+					defer lw.Done()
+					for k := l; k < a.Burst; k += lanes {
+						b := a
+						b.Op = "req"
+						b.Req = a.Req + k
+						// GetRunner itself is called inline (so that a blocking enqueue is attributable);
+						// waiting for the reply happens in a helper goroutine
+						wg.Add(1)
+						w.submitAsync(b, &wg)
+					}
+				}
+				if lanes == 1 {
+					submit(l)
+				} else {
+					go submit(l) // several handlers submit at the same moment: checking the queue and entering it must be one step
+				}
+			}
+			if lanes > 1 {
+				// a lane parked inside GetRunner never comes back: do not wait for it here, quiescence reports it
+				ld := make(chan struct{})
+				go func() { lw.Wait(); close(ld) }()
+				select {
+				case <-ld:
+				case <-w.ctx.Done():
+				}
 			}
 			w.log.add("burst-done", a.Req, 0, a.Model, "")
 			w.openGate()
@@ -1238,7 +1261,7 @@ func vGenHistory(r *kit.Rand, idx int, p vProfile) *vHistory {
 		nextReq++
 		blocker := vAction{Op: "req", Req: nextReq, Model: 1, NumCtx: 8, NumGPU: -1, KeepAliveUs: 1000, Hold: 2, LoadMode: "ok"}
 		nextReq++
-		burst := vAction{Op: "burst", Req: nextReq, Model: r.Intn(2), NumCtx: 8, NumGPU: -1, KeepAliveUs: 500, Hold: 1, LoadMode: "ok", Burst: h.MaxQueue + r.Range(2, 6)}
+		burst := vAction{Op: "burst", Req: nextReq, Model: r.Intn(2), NumCtx: 8, NumGPU: -1, KeepAliveUs: 500, Hold: 1, LoadMode: "ok", Burst: h.MaxQueue + r.Range(2, 6), Lanes: kit.Pick(r, []int{1, 2, 4, 8})}
 		nextReq += burst.Burst
 		h.Clients = [][]vAction{
 			{holder},
